@@ -32,7 +32,11 @@ CFG = {
             "(///, decorated and plain /** */, one multi-line #[doc], one #[doc] per line; blank lines, trailing "
             "blanks, multi-byte text, hyphen chains, 257 leading blank lines, 129 paragraphs, an 8 KiB summary line), "
             "request_body_max_bytes 0/1/65535/65536/u32::MAX/u32::MAX+1/i64::MAX/usize::MAX, version bounds up to "
-            "u64::MAX.u64::MAX.u64::MAX, three extractors; the plain filler declarations are judged one in sixteen "
+            "u64::MAX.u64::MAX.u64::MAX, three extractors; 78 'syntax-word' doc comments (evidence tags syntax:*): each of "
+            "13 words of the comment syntax itself (*, **, * *, ***, '* /', '/ *', //, ///, /**, #, -, back-tick, "
+            "backslash) as first and last word of the summary, of the first / a middle / the last description line, "
+            "after a blank, after a tab, glued to a word, and alone on a line, in six comment styles (///, decorated "
+            "and plain /** */, multi-line #[doc] plain and star-decorated, one #[doc] per line); the plain filler declarations are judged one in sixteen "
             "(all are in the APIs and in the whole-document comparison). Group 'refuse' (c19 --mode refuse): 98 declarations around the macro's "
             "refusal boundaries compiled with cargo check in a scratch crate, function form and trait form (including "
             "300-character pre-release / build strings, a major number of u64::MAX+1, and 3 / 4 / 5 extractor "
